@@ -840,6 +840,36 @@ fn roundtrip(ctx: &mut Ctx, mon: &mut Mon, m: &Pdu) -> Option<(Lib, Vec<u8>)> {
         }
     };
     mon.evals += 1;
+    // the same value written into a sink that takes only a few octets per call
+    // must put the same octets on the wire
+    if w.len() <= 4096 {
+        for max in [1usize, 7, 64] {
+            if max >= w.len() && max != 1 {
+                continue;
+            }
+            mon.evals += 1;
+            let short = catch(|| crate::c07_lib::write_short(&lib, max));
+            match short {
+                Ok(Some(s)) if s == w => {}
+                Ok(other) => {
+                    ctx.violation(
+                        &format!("C07:short-writes-change-octets:{}", m.name()),
+                        &format!("{} written into a sink accepting {} octets per call: {} octets arrive instead of {}", m.name(), max, other.as_ref().map(|o| o.len() as i64).unwrap_or(-1), w.len()),
+                        json!({"model": m.to_json(), "max_per_call": max, "written_hex": hex_capped(&w, 256), "short_hex": other.map(|o| hex_capped(&o, 256))}),
+                    );
+                    break;
+                }
+                Err(text) => {
+                    ctx.violation(
+                        &format!("C07:panic:write-short:{}:{}", m.name(), panic_location(&text)),
+                        &format!("writing {} into a slow sink panicked: {}", m.name(), text),
+                        json!({"model": m.to_json(), "max_per_call": max}),
+                    );
+                    break;
+                }
+            }
+        }
+    }
     // the length field and the octets written
     let field = be32(&w, 4);
     if field != Some(w.len() as u32) {
